@@ -395,6 +395,107 @@ func checkNames(res []string, eff []string, keepable func(string) bool) (detail,
 
 const repeatCalls = 50
 
+// isVariantOf: name is base, or base followed by the suffix ".N" (N >= 1,
+// decimal) that makeVariant's numbering adds.
+func isVariantOf(name, base string) bool {
+	if base == "" || !strings.HasPrefix(name, base) {
+		return false
+	}
+	rest := name[len(base):]
+	if rest == "" {
+		return true
+	}
+	if len(rest) < 2 || rest[0] != '.' || rest[1] == '0' {
+		return false
+	}
+	for i := 1; i < len(rest); i++ {
+		if rest[i] < '0' || rest[i] > '9' {
+			return false
+		}
+	}
+	return true
+}
+
+// provenance states "missing names are inferred from the character map or from
+// substitution rules (variant and ligature names) before falling back to
+// numbered placeholders" on the result alone.  A name, once given, is never
+// changed, so the names the components of a rule had when the rule was used
+// are their final names.  Hence every glyph that received a new name has
+//   - the Adobe name of a code point the cmap maps to it, or
+//   - the (final) name of a glyph that a type 1 / type 3 rule substitutes by
+//     it, possibly with a variant suffix, or
+//   - the (final) names of the components of a ligature whose output it is,
+//     joined by "_", possibly with a variant suffix, or
+//   - a numbered placeholder.
+func (fs *fontSpec) provenance(f *sfnt.Font, res, eff []string) string {
+	n := fs.n
+	bases := make([][]string, n) // candidate base names per target glyph
+	add := func(g int, base string) {
+		if g >= 0 && g < n {
+			bases[g] = append(bases[g], base)
+		}
+	}
+	for _, s := range fs.gsub {
+		for _, e := range s.cov {
+			if e.gid < 0 || e.gid >= n {
+				continue
+			}
+			switch s.kind {
+			case "g11":
+				add((e.gid+s.delta)&0xFFFF, res[e.gid])
+			case "g12":
+				if e.idx >= 0 && e.idx < len(s.subst) {
+					add(s.subst[e.idx], res[e.gid])
+				}
+			case "g31":
+				if e.idx >= 0 && e.idx < len(s.alts) {
+					for _, g := range s.alts[e.idx] {
+						add(g, res[e.gid])
+					}
+				}
+			case "g41":
+				if e.idx >= 0 && e.idx < len(s.repl) {
+					for _, lg := range s.repl[e.idx] {
+						parts := []string{res[e.gid]}
+						for _, g := range lg.in {
+							if g >= 0 && g < n {
+								parts = append(parts, res[g])
+							}
+						}
+						add(lg.out, strings.Join(parts, "_"))
+					}
+				}
+			}
+		}
+	}
+	cmapNames := make([][]string, n)
+	if sub, _ := f.CMapTable.GetBest(); f.CMapTable != nil && sub != nil {
+		for _, e := range fs.cmap {
+			if g := int(sub.Lookup(rune(e.r))); g > 0 && g < n {
+				cmapNames[g] = append(cmapNames[g], names.FromUnicode(string(rune(e.r))))
+			}
+		}
+	}
+glyphs:
+	for g := 1; g < n; g++ {
+		if res[g] == eff[g] || ornRe.MatchString(res[g]) {
+			continue
+		}
+		for _, c := range cmapNames[g] {
+			if res[g] == c {
+				continue glyphs
+			}
+		}
+		for _, b := range bases[g] {
+			if isVariantOf(res[g], b) {
+				continue glyphs
+			}
+		}
+		return fmt.Sprintf("glyph %d was named %q; the cmap offers %q, the substitution rules that produce it give %q (plus a variant suffix)", g, res[g], cmapNames[g], bases[g])
+	}
+	return ""
+}
+
 // exec builds the font, observes MakeGlyphNames and evaluates the oracle.
 func (fs *fontSpec) exec() (line, impl, fail, sig string) {
 	f := fs.build()
@@ -439,6 +540,12 @@ func (fs *fontSpec) exec() (line, impl, fail, sig string) {
 				return line, impl, fmt.Sprintf("glyph %d got placeholder %q although the cmap name %q (U+%04X) is free", g, res[g], nm, e.r), "c20-cmap-name-not-used"
 			}
 		}
+	}
+
+	// inferred from substitution rules: every name the function made up is
+	// explained by the cmap, by a GSUB rule, or is a placeholder
+	if d := fs.provenance(f, res, eff); d != "" {
+		return line, impl, d, "c20-inferred-name"
 	}
 
 	// asking again returns the same names (the font is unchanged)
